@@ -156,6 +156,18 @@ func (p Poly) String() string {
 
 func (p Poly) Equal(q Poly) bool { return p.String() == q.String() }
 
+// Near reports whether the two polynomials have the same monomials with coefficients that differ by at most eps
+// (constants of the source are rounded to the floating point type they are declared with).
+func (p Poly) Near(q Poly, eps *big.Rat) bool {
+	d := p.Add(q.Neg())
+	for _, c := range d.T {
+		if new(big.Rat).Abs(c).Cmp(eps) > 0 {
+			return false
+		}
+	}
+	return true
+}
+
 // Div: division by a constant scales, otherwise multiplies by the symbol inv(<q>).
 func (p Poly) Div(q Poly) (Poly, bool) {
 	if c, ok := q.IsConst(); ok {
